@@ -404,14 +404,17 @@ class TransformRunner(aggregates.Aggregatable, Iterable[_ValueT]):
       if key.metrics not in self.agg_fns:
         continue
       outputs = self.agg_fns[key.metrics].get_result(fn_state)
-      flattened_keys = key.metrics
+      # An output assigned to SKIP is dropped by the aggregate, there is nothing
+      # to read back for it.
+      metrics = tuple(k for k in key.metrics if k != tree.Key.SKIP)
+      flattened_keys = metrics
       # Only convert str key to MetricKey format when there is slices.
       if key.slice != tree_fns.SliceKey():
         assert isinstance(key.metrics, tuple), f'{key.metrics}'
         flattened_keys = tuple(
-            MetricKey(metric, key.slice) for metric in key.metrics
+            MetricKey(metric, key.slice) for metric in metrics
         )
-      outputs = tree.TreeMapView(outputs)[key.metrics]
+      outputs = tree.TreeMapView(outputs)[metrics]
       result = result.copy_and_set(flattened_keys, outputs)
     return result
 
